@@ -136,9 +136,13 @@ class HashTable:
         return f"{self.__class__.__name__}({self._keys.ravel().tolist()}, {v})"
 
     def _get_mod(self, keys):
-        return self.dtype(2 * keys.size - 1)  # TODO: make prime
+        mod = 2 * keys.size - 1  # TODO: make prime
+        return self.dtype(mod) if mod <= np.iinfo(keys.dtype).max else mod
 
     def _get_hash(self, keys):
+        keys = np.asanyarray(keys)
+        if keys.dtype.kind in "iu" and self._mod > np.iinfo(keys.dtype).max:
+            keys = keys.astype(np.int64)  # a modulus beyond the range of a narrow key type is still a modulus
         return keys % self._mod
 
     def _build_ragged_array(self, keys, hashes):
